@@ -610,6 +610,33 @@ def w5_bundled_state(ctx: Ctx):
         raise ShapeError(f'only {n} bundling methods with packed state found')
 
 
+def w7_bundle_substitution(ctx: Ctx):
+    """While bundling carries the loop's variables in one tuple `t`: the *condition*, evaluated between iterations, reads
+    `x_i` as `t[i]`; the *body* starts by unpacking `t` into names of its own and ends by packing them again, so inside it a
+    variable is read under its (renamed) name -- `f = f * i` after `i = i + 1` must see the new `i`.  The substitution
+    `x_i -> t[i]` therefore goes to the condition and to nothing else: every visit of the body in `_visit_while` is made
+    under the context the method was entered with."""
+    from ..symenv import execute, show, sym
+    rel, cls = 'fpy2/transform/while_bundling.py', '_WhileBundlingInstance'
+    fn = ctx.repo.methods(rel, cls, inherited=False).get('_visit_while')
+    if fn is None:
+        raise ShapeError('_WhileBundlingInstance._visit_while not found')
+    f = fn[2]
+    incoming = f.args.args[2].arg if len(f.args.args) > 2 else 'ctx'
+    ex = execute(f, {}, {}, loop_passes=1)
+    bodies = [e for e in ex.events if e.kind == 'call' and e.name == 'self._visit_block' and e.args and show(e.args[0]) == 'stmt.body']
+    conds = [e for e in ex.events if e.kind == 'call' and e.name == 'self._visit_expr' and e.args and show(e.args[0]) == 'stmt.cond']
+    if not bodies or not conds:
+        raise ShapeError('_visit_while: visits of the condition / body not found')
+    for e in bodies:
+        ok = len(e.args) >= 2 and e.args[1] == sym(incoming)
+        ctx.check(ok, rel, e.node, f'{cls}._visit_while', 'the loop body is rewritten under the incoming context (its variables keep their own, renamed, names)',
+                  f'rewritten under `{show(e.args[1])[:80] if len(e.args) > 1 else "?"}`: a read after a write in the same iteration sees the value from the start of the iteration '
+                  '-- `i = i + 1; f = f * i` computes 0 for 5!')
+    subst = [e for e in conds if len(e.args) >= 2 and e.args[1] != sym(incoming)]
+    ctx.check(bool(subst), rel, conds[0].node, f'{cls}._visit_while', 'the condition of a bundled loop reads the carried variables out of the tuple', 'the condition is never rewritten: it reads names the loop no longer updates')
+
+
 def w6_reserved_names(ctx: Ctx):
     """An FPCore reader takes `E`, `PI`, `LN2`, `NAN`, `TRUE`, ... for constants wherever they stand; the writer emits an
     FPy variable under its own spelling (`str(e.name)`).  So no variable may reach emission spelled like a constant:
@@ -933,6 +960,7 @@ def r3_loop_condition(ctx: Ctx):
 
 
 RULES = [
+    Rule('C12.W7', 'while bundling: the tuple substitution reaches the condition only; the body reads its own variables', w7_bundle_substitution, 2, 'F'),
     Rule('C12.W6', 'writer: no variable reaches emission spelled like an FPCore constant', w6_reserved_names, 8, 'F,T'),
     Rule('C12.W5', 'bundling: the variables a branch or loop changes are packed and unpacked in one order', w5_bundled_state, 3, 'F'),
     Rule('C12.W4', 'writer: the tensor a range lowers to lists the integers of the range (count and element formula, evaluated under the annotation semantics)', w4_ranges, 3, 'T'),
@@ -952,6 +980,8 @@ RULES = [
 from ..selftest import Mutant  # noqa: E402
 
 MUTANTS = [
+    Mutant('while-body-rewritten-with-the-tuple-substitution', 'fpy2/transform/while_bundling.py', "            body, _ = self._visit_block(stmt.body, ctx)\n            body = RenameTarget.apply_block(body, rename)", "            body, _ = self._visit_block(stmt.body, cond_ctx)\n            body = RenameTarget.apply_block(body, rename)", 'C12.W7',
+           'seeded change C12f: i = i + 1; f = f * i reads the i of the start of the iteration, 5! = 0'),
     Mutant('variables-emitted-under-reserved-spellings', BACK, "    fd = IfBundling.apply(fd)\n    fd = _rename_reserved_names(fd)\n", "    fd = IfBundling.apply(fd)\n", 'C12.W6',
            'finding F115 before its repair: E = x / y; PI = E + y; return PI / E prints a core that evaluates to pi / e'),
     Mutant('captured-callees-renamed-too', BACK, "        (n for n in names if str(n) in reserved_constants and n not in fd.free_vars),", "        (n for n in names if str(n) in reserved_constants),", 'C12.W6',
